@@ -3,13 +3,13 @@
 #  (1) with the change the unedited suite passes, (2) the demo fails with the change, (3) the demo passes without it.
 # On success stores /verif/seeded/<prop>-<letter>/{patch.diff,demo.rs,notes.md,confirm.log}
 set -u
-P=$1; L=$2; W=/tmp/seed_$P; O=$W/out
+P=$1; L=$2; W=${SEEDW:-/tmp/seed_$P}; O=$W/out
 cd $W || exit 2
 git checkout -q -- . ; rm -f etherparse/tests/seed_demo_*.rs
 LOG=$O/confirm_$L.log; : > $LOG
 git apply $O/$L.diff || { echo "patch does not apply" | tee -a $LOG; exit 2; }
 echo "== suite with change" >> $LOG
-cargo test --workspace --no-fail-fast --offline 2>&1 | grep -E "^test result|FAILED|failed" >> $LOG
+cargo test --workspace --no-fail-fast --offline -j 6 2>&1 | grep -E "^test result|FAILED|failed" >> $LOG
 SUITE_OK=$(grep -c "^test result: ok" $LOG); SUITE_BAD=$(grep -c "FAILED\|failed;" $LOG | head -1)
 cp $O/${L}_demo.rs etherparse/tests/seed_demo_$L.rs
 echo "== demo with change" >> $LOG
